@@ -20,19 +20,27 @@ Definition del_set (s : setname) (st : state) (t : nat) : state :=
   | SComplete => St (partial st) (del t (complete st))
   end.
 
+(* everything about a target that the regenerated code may ask for besides the two maps: what each
+   accessor of its dependencies returns, and the numeric value of its State() *)
+Record tenv := TE { te_deps : depsrc -> nat -> list nat; te_rank : nat -> N }.
+
+(* a graph whose edges are all plain dependencies, targets in any state below Built *)
+Definition plain_env (g : graph) : tenv := TE (fun _ t => deps g t) (fun _ => 0%N).
+
 (* st: the maps, None where they are not tracked (after a visit that returned a cycle);
    cx: (cycle, done) where Go has bound them.  c.stopped is false throughout. *)
-Fixpoint eval_cond (st : option state) (t : nat) (cx : option (list nat * bool)) (c : cond) : option bool :=
+Fixpoint eval_cond (env : tenv) (st : option state) (t : nat) (cx : option (list nat * bool)) (c : cond) : option bool :=
   match c with
   | CStopped => Some false
+  | CStateGe s => Some (N.leb (gstate_rank s) (te_rank env t))
   | CIn s => option_map (fun st => in_set s st t) st
   | CDone => option_map snd cx
   | CTargetIsLast => option_map (fun p => Nat.eqb t (last (fst p) 0)) cx
   | CTargetIsFirst => option_map (fun p => Nat.eqb t (hd 0 (fst p))) cx
-  | CNot a => option_map negb (eval_cond st t cx a)
-  | COr a b => match eval_cond st t cx a, eval_cond st t cx b with
+  | CNot a => option_map negb (eval_cond env st t cx a)
+  | COr a b => match eval_cond env st t cx a, eval_cond env st t cx b with
                | Some x, Some y => Some (x || y) | _, _ => None end
-  | CAnd a b => match eval_cond st t cx a, eval_cond st t cx b with
+  | CAnd a b => match eval_cond env st t cx a, eval_cond env st t cx b with
                 | Some x, Some y => Some (x && y) | _, _ => None end
   end.
 
@@ -49,52 +57,58 @@ Definition do_ret (st : option state) (t : nat) (cx : option (list nat * bool)) 
   | _, _, _ => FBad
   end.
 
-Fixpoint exec_inner (t : nat) (cx : option (list nat * bool)) (body : list istmt) : flow :=
+Fixpoint exec_inner (env : tenv) (t : nat) (cx : option (list nat * bool)) (body : list istmt) : flow :=
   match body with
   | [] => FBad
   | IIf c k d :: r =>
-      match eval_cond None t cx c with
+      match eval_cond env None t cx c with
       | None => FBad
       | Some true => do_ret None t cx k d
-      | Some false => exec_inner t cx r
+      | Some false => exec_inner env t cx r
       end
   | IRet k d :: _ => do_ret None t cx k d
   end.
 
-Fixpoint exec_range (vis : state -> nat -> res) (t : nat) (inner : list istmt) (ds : list nat) (st : state) : flow :=
+Fixpoint exec_range (vis : state -> nat -> res) (env : tenv) (t : nat) (inner : list istmt) (ds : list nat) (st : state) : flow :=
   match ds with
   | [] => FNext st
   | dep :: ds' =>
       match vis st dep with
       | OutOfFuel => FRet OutOfFuel
-      | NoCyc st' => exec_range vis t inner ds' st'
-      | Cyc c done => exec_inner t (Some (c, done)) inner
+      | NoCyc st' => exec_range vis env t inner ds' st'
+      | Cyc c done => exec_inner env t (Some (c, done)) inner
       end
   end.
 
-Fixpoint exec_body (vis : state -> nat -> res) (dps : list nat) (t : nat) (body : list stmt) (st : state) : flow :=
+Fixpoint exec_body (vis : state -> nat -> res) (env : tenv) (t : nat) (body : list stmt) (st : state) : flow :=
   match body with
   | [] => FBad
   | SIf c k d :: r =>
-      match eval_cond (Some st) t None c with
+      match eval_cond env (Some st) t None c with
       | None => FBad
       | Some true => do_ret (Some st) t None k d
-      | Some false => exec_body vis dps t r st
+      | Some false => exec_body vis env t r st
       end
-  | SAdd s :: r => exec_body vis dps t r (add_set s st t)
-  | SDel s :: r => exec_body vis dps t r (del_set s st t)
-  | SRange inner :: r =>
-      match exec_range vis t inner dps st with
-      | FNext st' => exec_body vis dps t r st'
+  | SIfAddRet c adds k d :: r =>
+      match eval_cond env (Some st) t None c with
+      | None => FBad
+      | Some true => do_ret (Some (fold_left (fun st' s => add_set s st' t) adds st)) t None k d
+      | Some false => exec_body vis env t r st
+      end
+  | SAdd s :: r => exec_body vis env t r (add_set s st t)
+  | SDel s :: r => exec_body vis env t r (del_set s st t)
+  | SRange src inner :: r =>
+      match exec_range vis env t inner (te_deps env src t) st with
+      | FNext st' => exec_body vis env t r st'
       | other => other
       end
   | SRet k d :: _ => do_ret (Some st) t None k d
   end.
 
-Fixpoint run_visit (body : list stmt) (fuel : nat) (g : graph) (st : state) (t : nat) : res :=
+Fixpoint run_visit (body : list stmt) (fuel : nat) (env : tenv) (st : state) (t : nat) : res :=
   match fuel with
   | O => OutOfFuel
-  | S f => match exec_body (run_visit body f g) (deps g t) t body st with
+  | S f => match exec_body (run_visit body f env) env t body st with
            | FRet r => r
            | _ => OutOfFuel
            end
@@ -102,55 +116,77 @@ Fixpoint run_visit (body : list stmt) (fuel : nat) (g : graph) (st : state) (t :
 
 Inductive lflow := LNext (st : state) | LRet (o : outcome).
 
-Fixpoint exec_loop_body (vbody : list stmt) (fuel : nat) (g : graph) (t : nat) (body : list lstmt) (st : state) : lflow :=
+(* errCycle.Cycle: the slice visit returned, or something the model has no meaning for (the out-of-fuel
+   value, which the theorems exclude) *)
+Definition reported (r : report) (cycle : list nat) : outcome :=
+  match r with RCycle => Found cycle | RThrough => Fuel end.
+
+Fixpoint exec_loop_body (vbody : list stmt) (fuel : nat) (env : tenv) (t : nat) (body : list lstmt) (st : state) : lflow :=
   match body with
   | [] => LNext st
   | LIfRetNil c :: r =>
-      match eval_cond (Some st) t None c with
+      match eval_cond env (Some st) t None c with
       | None => LRet Fuel
       | Some true => LRet Clean
-      | Some false => exec_loop_body vbody fuel g t r st
+      | Some false => exec_loop_body vbody fuel env t r st
       end
-  | LIfVisit c :: r =>
-      match eval_cond (Some st) t None c with
+  | LIfVisit c rep :: r =>
+      match eval_cond env (Some st) t None c with
       | None => LRet Fuel
       | Some true =>
-          match run_visit vbody fuel g st t with
+          match run_visit vbody fuel env st t with
           | OutOfFuel => LRet Fuel
-          | NoCyc st' => exec_loop_body vbody fuel g t r st'
-          | Cyc cycle _ => LRet (Found cycle)
+          | NoCyc st' => exec_loop_body vbody fuel env t r st'
+          | Cyc cycle _ => LRet (reported rep cycle)
           end
-      | Some false => exec_loop_body vbody fuel g t r st
+      | Some false => exec_loop_body vbody fuel env t r st
       end
   end.
 
-Fixpoint run_loop (vbody : list stmt) (lbody : list lstmt) (fuel : nat) (g : graph) (order : list nat) (st : state) : outcome :=
+Fixpoint run_loop (vbody : list stmt) (lbody : list lstmt) (fuel : nat) (env : tenv) (order : list nat) (st : state) : outcome :=
   match order with
   | [] => Clean
   | t :: rest =>
-      match exec_loop_body vbody fuel g t lbody st with
+      match exec_loop_body vbody fuel env t lbody st with
       | LRet o => o
-      | LNext st' => run_loop vbody lbody fuel g rest st'
+      | LNext st' => run_loop vbody lbody fuel env rest st'
       end
   end.
 
-(* if cond { return nil } ... before the maps are created *)
+(* if cond { return nil } ... before the maps are created; a condition on a target has no meaning here *)
 Fixpoint exec_prologue (ps : list cond) (k : outcome) : outcome :=
   match ps with
   | [] => k
   | c :: r =>
-      match eval_cond (Some (St [] [])) 0 None c with
-      | None => Fuel
-      | Some true => Clean
-      | Some false => exec_prologue r k
+      match c with
+      | CStopped => exec_prologue r k
+      | _ => Fuel
       end
   end.
 
-Definition run_check (prologue : list cond) (vbody : list stmt) (lbody : list lstmt) (g : graph) (order : list nat) : outcome :=
-  exec_prologue prologue (run_loop vbody lbody (fuel_for g) g order (St [] [])).
+Definition run_check (prologue : list cond) (vbody : list stmt) (lbody : list lstmt) (fuel : nat) (env : tenv) (order : list nat) : outcome :=
+  exec_prologue prologue (run_loop vbody lbody fuel env order (St [] [])).
 
-(* cycleDetector.Check as regenerated from the source on this run *)
-Definition src_detect : graph -> list nat -> outcome := run_check check_prologue visit_body check_body.
+(* cycleDetector.Check as regenerated from the source on this run, on targets whose accessors and states
+   are given by env; fuel as for a graph of n targets *)
+Definition src_detect_env (n : nat) (env : tenv) (order : list nat) : outcome :=
+  run_check check_prologue visit_body check_body (S n) env order.
+
+(* ... on a graph of plain dependencies *)
+Definition src_detect (g : graph) (order : list nat) : outcome := src_detect_env (length g) (plain_env g) order.
+
+(* ---- edge kinds: the accessors as regenerated from build_target.go ---- *)
+Definition has_flag (d : depflag) (f : flags) : bool :=
+  match d with FSource => f_source f | FInternal => f_internal f | FRuntime => f_runtime f | FData => f_data f end.
+Definition src_excl (s : depsrc) : list depflag :=
+  match s with DepsAll => dependencies_excl | DepsBuild => build_dependencies_excl end.
+(* for _, deps := range target.dependencies { if <none of the excluding flags> { for _, dep := range deps.deps { ret = append(ret, dep) } } }; sort.Sort(ret) *)
+Definition src_row (ranks : list nat) (s : depsrc) (l : list dinfo) : list nat :=
+  sort_by (rank_fn ranks)
+    (flat_map (fun di => if existsb (fun d => has_flag d (d_flags di)) (src_excl s) then [] else d_deps di) l).
+(* the targets of a world of declared and resolved dependencies of all kinds, in states given by rk *)
+Definition kinded_env (ranks : list nat) (w : kworld) (rk : nat -> N) : tenv :=
+  TE (fun s t => src_row ranks s (nth t w [])) rk.
 
 (* ---- one detector kept between runs (Model/C06.v, run_session) ---- *)
 (* what a cycleDetector can carry from one Check to the next: its fields as regenerated from the
